@@ -345,3 +345,94 @@ func init() {
 	},
 }
 }
+
+// ---- encoding/gob as a lossless box (wire format outside every claim) ----
+
+type gobBox struct {
+	w IfaceV // writer (encoder) or reader (decoder)
+}
+
+func (in *Interp) derefAll(v Value) Value {
+	for {
+		p, ok := v.(PtrV)
+		if !ok || p.N == nil {
+			return v
+		}
+		v = in.load(p)
+	}
+}
+
+func registerGob(m map[string]intrinsicFn) {
+	m["encoding/gob.NewEncoder"] = func(in *Interp, fn *ssa.Function, args []Value) Value {
+		in.nodeSeq++
+		return PtrV{N: &Node{V: gobBox{w: args[0].(IfaceV)}, T: types.Typ[types.Int], id: in.nodeSeq}}
+	}
+	m["encoding/gob.NewDecoder"] = m["encoding/gob.NewEncoder"]
+	m["encoding/gob.Register"] = func(in *Interp, fn *ssa.Function, args []Value) Value { return TupleV{} }
+	m["encoding/gob.RegisterName"] = m["encoding/gob.Register"]
+	m["(*encoding/gob.Encoder).Encode"] = func(in *Interp, fn *ssa.Function, args []Value) Value {
+		box := args[0].(PtrV).N.V.(gobBox)
+		iv := args[1].(IfaceV)
+		saveMemo := in.memo
+		in.memo = map[interface{}]interface{}{}
+		val := in.cloneValue(in.derefAll(iv.V))
+		in.memo = saveMemo
+		in.gobVals = append(in.gobVals, val)
+		k := len(in.gobVals) - 1
+		bs := []*Term{in.tb.Const(8, 'G'), in.tb.Const(8, 'O'), in.tb.Const(8, 'B'), in.tb.Const(8, '#'),
+			in.tb.Const(8, uint64(k>>24)), in.tb.Const(8, uint64(k>>16)), in.tb.Const(8, uint64(k>>8)), in.tb.Const(8, uint64(k))}
+		r := in.callMethod(box.w, "Write", in.byteSliceOf(bs)).(TupleV)
+		in.abstractUsed = true
+		return r[1]
+	}
+	m["(*encoding/gob.Decoder).Decode"] = func(in *Interp, fn *ssa.Function, args []Value) Value {
+		box := args[0].(PtrV).N.V.(gobBox)
+		buf := in.byteSliceOf(make([]*Term, 8))
+		for i := range buf.Arr.Kids {
+			buf.Arr.Kids[i].V = in.tb.Const(8, 0)
+		}
+		r := in.callFunction(in.stdFunc("io", "ReadFull"), []Value{box.w, buf}, nil).(TupleV)
+		if err := r[1].(IfaceV); err.T != nil {
+			return err
+		}
+		var hdr [8]byte
+		for i := range hdr {
+			t := buf.Arr.Kids[i].V.(*Term)
+			if !t.IsConst() {
+				return in.newError("gob: corrupt stream (symbolic bytes are never a valid gob box)")
+			}
+			hdr[i] = byte(t.C)
+		}
+		if string(hdr[:4]) != "GOB#" {
+			return in.newError("gob: bad stream")
+		}
+		k := int(hdr[4])<<24 | int(hdr[5])<<16 | int(hdr[6])<<8 | int(hdr[7])
+		if k >= len(in.gobVals) {
+			return in.newError("gob: bad stream")
+		}
+		tgt, ok := args[1].(IfaceV).V.(PtrV)
+		if !ok || tgt.N == nil {
+			return in.newError("gob: decode into non-pointer")
+		}
+		// follow pointers in the target down to where the value lives, allocating as gob does
+		for {
+			if pt, isPtr := tgt.N.T.Underlying().(*types.Pointer); isPtr && tgt.N.Kids == nil {
+				cur, _ := tgt.N.V.(PtrV)
+				if cur.N == nil {
+					cur = PtrV{N: in.newNode(pt.Elem(), nil)}
+					tgt.N.V = cur
+				}
+				tgt = cur
+				continue
+			}
+			break
+		}
+		saveMemo := in.memo
+		in.memo = map[interface{}]interface{}{}
+		val := in.cloneValue(in.gobVals[k])
+		in.memo = saveMemo
+		in.abstractUsed = true
+		in.store(tgt, val)
+		return IfaceV{}
+	}
+}
